@@ -90,6 +90,9 @@ def opValidate : Handler := fun j => do
     return resJson uvalJson (setField (← getStr (← field j "field")) (← getSys (← field j "sys")) (← getScalar (← field j "v")))
   | "field_dim" =>
     return resJson uvalJson (processScalar (← getSys (← field j "sys")) (← getDim (← field j "dim")) (← getScalar (← field j "v")))
+  | "array_text" =>
+    return resJson unitJson (arrayTextElement (← getStr (← field j "field")) (← getSys (← field j "sys")) (← getRat (← field j "v"))
+      (← getStr (← field j "u")))
   | "sys" =>
     return resJson sysJson (mkSys (← getStr (← field j "space")) (← getStr (← field j "time")) (← getStr (← field j "quantity")))
   | "index_map" => return resJson unitJson (checkIndexMap (← getIntList (← field j "im")) (← getIntList (← field j "env")))
